@@ -39,7 +39,7 @@ def gen_cases(tier, seed):
                 degs[0] += 1
             g = nx.Graph(nx.configuration_model(degs, seed=r.randrange(10 ** 9)))
             g.remove_edges_from(nx.selfloop_edges(g))
-            c['graph'] = {'n': nn, 'edges': sorted([sorted(e) for e in g.edges()]), 'labels': r.choice(gen.LABEL_SCHEMES)}
+            c['graph'] = {'n': nn, 'edges': sorted([sorted(e) for e in g.edges()]), 'labels': r.choice(gen.LABEL_SCHEMES), 'decoy': r.random() < 0.3}
             if k % 5 == 4:
                 # the raw output of nx.configuration_model (a MultiGraph with parallel edges and self-loops) is how the library's own
                 # documentation feeds degree-based models; degrees count edge ends there
@@ -55,7 +55,7 @@ def gen_cases(tier, seed):
             if (nn * kk) % 2:
                 nn += 1
             g = nx.random_regular_graph(kk, nn, seed=r.randrange(10 ** 9))
-            c['graph'] = {'n': nn, 'edges': sorted([sorted(e) for e in g.edges()]), 'labels': r.choice(gen.LABEL_SCHEMES), 'k': kk}
+            c['graph'] = {'n': nn, 'edges': sorted([sorted(e) for e in g.edges()]), 'labels': r.choice(gen.LABEL_SCHEMES), 'k': kk, 'decoy': r.random() < 0.3}
         out.append(c)
     return out
 
